@@ -207,7 +207,9 @@ Proof. intros id es id' es'. unfold afile_name, make_archive. cbn [a_log_id a_st
 (** serde_json never produces a non-finite float from text *)
 Definition jvalue_wf (v : jvalue) : Prop :=
   match v with JFloat bits => f64_finite bits = true | _ => True end.
-Definition jentry_wf (j : jentry) : Prop := Forall (fun p => jvalue_wf (snd p)) (j_payload j).
+(** a timestamp is a u64 *)
+Definition jentry_wf (j : jentry) : Prop :=
+  j_ts j <= u64_max /\ Forall (fun p => jvalue_wf (snd p)) (j_payload j).
 Definition line_wf (l : line) : Prop := match l with LEntry j => jentry_wf j | _ => True end.
 
 Definition stable (v : scalar) : Prop := mp_roundtrip v = v.
@@ -245,7 +247,7 @@ Lemma mp_entry_line_born : forall j, jentry_wf j -> mp_entry (entry_of_json j) =
 Proof.
   intros j Hj. unfold mp_entry, entry_of_json. cbn [e_ts e_ctx e_type e_payload e_id]. f_equal.
   assert (F : Forall (fun p => stable (snd p)) (build_map (map (fun p => (fst p, scalar_of_json (snd p))) (j_payload j)))).
-  { apply build_map_forall. unfold jentry_wf in Hj. induction Hj as [|p l Hp Hl IH]; cbn [map]; constructor; auto.
+  { apply build_map_forall. destruct Hj as [_ Hj]. induction Hj as [|p l Hp Hl IH]; cbn [map]; constructor; auto.
     cbn [snd]. apply scalar_of_json_stable. exact Hp. }
   induction F as [|[k v] l Hv Hl IH]; cbn [map]; [reflexivity|].
   cbn [fst snd] in *. unfold stable in Hv. rewrite Hv, IH. reflexivity.
@@ -349,6 +351,35 @@ Qed.
 
 (** * The scan *)
 
+(** Flags regenerated from the Rust text (tools/params/p40_walarch.py).  The proofs below are about the
+    repaired code: they stop compiling if a flag flips back. *)
+Lemma scan_flag : walarch_scan_canonical_only = true.
+Proof. reflexivity. Qed.
+Lemma own_dir_flag : walarch_cleaner_archives_own_dir = true.
+Proof. reflexivity. Qed.
+Lemma numeric_sort_flag : walarch_recovery_numeric_sort = true.
+Proof. reflexivity. Qed.
+
+(** the scan accepts a name only as the canonical name of an eligible id *)
+Lemma scan_id_spec : forall n keep id,
+  scan_id n keep = Some id ->
+  parse_log_name n = Some id /\ walarch_eligible id keep = true /\ n = log_name id.
+Proof.
+  intros n keep id H. unfold scan_id in H. rewrite scan_flag in H. cbn [negb orb] in H.
+  destruct (parse_log_name n) as [id'|]; [|discriminate].
+  destruct (walarch_eligible id' keep) eqn:He; [|discriminate]. cbn [andb] in H.
+  destruct (bytes_eqb n (log_name id')) eqn:E; [|discriminate]. inversion H. subst id'.
+  apply bytes_eqb_eq in E. auto.
+Qed.
+
+Lemma scan_id_none : forall n keep,
+  (forall id, parse_log_name n = Some id -> walarch_eligible id keep = true -> n <> log_name id) ->
+  scan_id n keep = None.
+Proof.
+  intros n keep H. destruct (scan_id n keep) as [id|] eqn:E; [|reflexivity].
+  destruct (scan_id_spec _ _ _ E) as (H1 & H2 & H3). exfalso. exact (H id H1 H2 H3).
+Qed.
+
 Lemma archive_scan_keeps : forall io wal id ls es todo root keep root' res,
   holds root id es -> io id = IoOk ->
   lookup (log_name id) wal = Some (WFile ls) -> parse_lines ls = Some es ->
@@ -357,8 +388,7 @@ Proof.
   intros io wal id ls es todo. induction todo as [|[n o] r IH]; intros root keep root' res Hh Hio EL EP H;
     cbn [archive_scan] in H.
   - inversion H. subst. exact Hh.
-  - destruct (parse_log_name n) as [id2|]; [|eauto].
-    destruct (walarch_eligible id2 keep); [|eauto].
+  - destruct (scan_id n keep) as [id2|]; [|eauto].
     destruct (archive_log io wal root id2) as [root1 r1] eqn:E1.
     destruct (archive_scan io wal r root1 keep) as [root2 rs] eqn:E2.
     inversion H. subst. eapply IH; [|exact Hio|exact EL|exact EP|exact E2].
@@ -373,8 +403,7 @@ Lemma archive_scan_results : forall io wal todo root keep root' res nm,
 Proof.
   intros io wal todo. induction todo as [|[n o] r IH]; intros root keep root' res nm H Hin; cbn [archive_scan] in H.
   - inversion H. subst. destruct Hin.
-  - destruct (parse_log_name n) as [id|]; [|eauto].
-    destruct (walarch_eligible id keep); [|eauto].
+  - destruct (scan_id n keep) as [id|]; [|eauto].
     destruct (archive_log io wal root id) as [root1 r1] eqn:E1.
     destruct (archive_scan io wal r root1 keep) as [root2 rs] eqn:E2.
     inversion H. subst. destruct Hin as [E|Hin]; [|eauto].
@@ -382,26 +411,25 @@ Proof.
     exists id, ls, es. repeat split; try assumption. eapply archive_scan_keeps; eassumption.
 Qed.
 
-(** every scanned eligible entry contributes a result *)
+(** every accepted entry contributes a result *)
 Lemma archive_scan_entry : forall io wal todo root keep root' res n o id,
   archive_scan io wal todo root keep = (root', res) ->
-  In (n, o) todo -> parse_log_name n = Some id -> walarch_eligible id keep = true ->
+  In (n, o) todo -> scan_id n keep = Some id ->
   existsb is_none res = false ->
   exists ls es, lookup (log_name id) wal = Some (WFile ls) /\ parse_lines ls = Some es /\ io id = IoOk /\
                 holds root' id es.
 Proof.
-  intros io wal todo. induction todo as [|[n' o'] r IH]; intros root keep root' res n o id H Hin Hp He Hok;
+  intros io wal todo. induction todo as [|[n' o'] r IH]; intros root keep root' res n o id H Hin Hs Hok;
     [destruct Hin|]. cbn [archive_scan] in H.
   destruct Hin as [E|Hin].
-  - inversion E. subst n' o'. rewrite Hp, He in H.
+  - inversion E. subst n' o'. rewrite Hs in H.
     destruct (archive_log io wal root id) as [root1 r1] eqn:E1.
     destruct (archive_scan io wal r root1 keep) as [root2 rs] eqn:E2.
     inversion H. subst. cbn [existsb] in Hok. apply orb_false_iff in Hok. destruct Hok as [Hr1 _].
     destruct r1 as [nm|]; [|discriminate].
     destruct (archive_log_ok_holds _ _ _ _ _ _ E1) as (ls & es & EL & EP & Hio & En & Hh).
     exists ls, es. repeat split; try assumption. eapply archive_scan_keeps; eassumption.
-  - destruct (parse_log_name n') as [id2|]; [|eauto].
-    destruct (walarch_eligible id2 keep); [|eauto].
+  - destruct (scan_id n' keep) as [id2|]; [|eauto].
     destruct (archive_log io wal root id2) as [root1 r1] eqn:E1.
     destruct (archive_scan io wal r root1 keep) as [root2 rs] eqn:E2.
     inversion H. subst. cbn [existsb] in Hok. apply orb_false_iff in Hok. destruct Hok as [_ Hrs]. eauto.
@@ -409,12 +437,12 @@ Qed.
 
 (** names outside [round_archive_names] are not touched by the pass *)
 Lemma in_round_names : forall wal keep n o id ls es,
-  In (n, o) wal -> parse_log_name n = Some id -> walarch_eligible id keep = true ->
+  In (n, o) wal -> scan_id n keep = Some id ->
   lookup (log_name id) wal = Some (WFile ls) -> parse_lines ls = Some es ->
   In (afile_name (make_archive id es)) (round_archive_names wal keep).
 Proof.
-  intros wal keep n o id ls es Hin Hp He EL EP. unfold round_archive_names.
-  apply in_flat_map. exists (n, o). split; [exact Hin|]. cbn [fst]. rewrite Hp, He, EL, EP. left. reflexivity.
+  intros wal keep n o id ls es Hin Hs EL EP. unfold round_archive_names.
+  apply in_flat_map. exists (n, o). split; [exact Hin|]. cbn [fst]. rewrite Hs, EL, EP. left. reflexivity.
 Qed.
 
 Lemma name_reused_false : forall nm wal keep x,
@@ -434,8 +462,7 @@ Proof.
   intros io wal keep nm todo. induction todo as [|[n o] r IH]; intros root root' res Hnr Hincl H; cbn [archive_scan] in H.
   - inversion H. reflexivity.
   - assert (Hr : incl r wal) by (intros x Hx; apply Hincl; right; exact Hx).
-    destruct (parse_log_name n) as [id|] eqn:Hp; [|eauto].
-    destruct (walarch_eligible id keep) eqn:He; [|eauto].
+    destruct (scan_id n keep) as [id|] eqn:Hs; [|eauto].
     destruct (archive_log io wal root id) as [root1 r1] eqn:E1.
     destruct (archive_scan io wal r root1 keep) as [root2 rs] eqn:E2.
     inversion H. subst. rewrite (IH _ _ _ Hnr Hr E2).
@@ -448,30 +475,51 @@ Qed.
 Lemma abort_flag : walarch_abort_on_failure = true.
 Proof. reflexivity. Qed.
 
+(** since fix db8e58e the archive pass reads the directory the cleaner deletes from *)
+Lemma archiver_dir_eq : forall w, archiver_dir w = cleaner_dir w.
+Proof. intro w. unfold archiver_dir. rewrite own_dir_flag. reflexivity. Qed.
+
+Lemma cleaner_dir_set : forall w d root, cleaner_dir (set_cleaner_dir w d root) = d.
+Proof. intros [wal [c|] r] d root; reflexivity. Qed.
+Lemma w_root_set : forall w d root, w_root (set_cleaner_dir w d root) = root.
+Proof. intros [wal [c|] r] d root; reflexivity. Qed.
+
+(** the three outcomes of [cleanup_up_to true] in one place *)
+Lemma cleanup_conservative_char : forall fl w keep w' res,
+  cleanup_up_to true fl w keep = (w', res) ->
+  exists root1,
+    archive_scan (f_io fl) (cleaner_dir w) (cleaner_dir w) (w_root w) keep = (root1, res) /\
+    w_root w' = root1 /\
+    ((existsb is_none res = true /\ w_wal w' = w_wal w /\ w_cwal w' = w_cwal w) \/
+     (existsb is_none res = false /\ cleaner_dir w' = delete_pass (f_del_ok fl) keep (cleaner_dir w))).
+Proof.
+  intros fl w keep w' res H. unfold cleanup_up_to in H. rewrite archiver_dir_eq in H.
+  unfold archive_logs_up_to in H.
+  destruct (archive_scan (f_io fl) (cleaner_dir w) (cleaner_dir w) (w_root w) keep) as [root1 res1] eqn:E.
+  rewrite abort_flag in H. cbn [andb] in H.
+  destruct (existsb is_none res1) eqn:Ex; inversion H; subst w' res; exists root1.
+  - split; [reflexivity|]. split; [reflexivity|]. left. auto.
+  - split; [reflexivity|]. split; [apply w_root_set|]. right. split; [exact Ex|apply cleaner_dir_set].
+Qed.
+
 Theorem no_delete_on_any_failure : forall fl w keep w' res,
   cleanup_up_to true fl w keep = (w', res) ->
   existsb is_none res = true ->
   w_wal w' = w_wal w /\ w_cwal w' = w_cwal w.
 Proof.
-  intros fl w keep w' res H Hf. unfold cleanup_up_to in H.
-  destruct (archive_logs_up_to (f_io fl) (w_wal w) (w_root w) keep) as [root1 res1] eqn:E.
-  rewrite abort_flag in H. cbn [andb] in H.
-  destruct (existsb is_none res1) eqn:E1; inversion H; subst; [split; reflexivity|congruence].
+  intros fl w keep w' res H Hf.
+  destruct (cleanup_conservative_char _ _ _ _ _ H) as (root1 & _ & _ & [(_ & H1 & H2)|(Ex & _)]); [auto|congruence].
 Qed.
 
 (** the archives written before (or after) the failing one stay in place *)
 Theorem partial_failure_keeps_archives : forall fl w keep w' res nm,
   cleanup_up_to true fl w keep = (w', res) -> In (Some nm) res ->
-  exists id ls es, lookup (log_name id) (w_wal w) = Some (WFile ls) /\ parse_lines ls = Some es /\
+  exists id ls es, lookup (log_name id) (cleaner_dir w) = Some (WFile ls) /\ parse_lines ls = Some es /\
                    nm = afile_name (make_archive id es) /\
                    root_lookup nm (w_root w') = Some (AFile (make_archive id es)).
 Proof.
-  intros fl w keep w' res nm H Hin. unfold cleanup_up_to in H.
-  destruct (archive_logs_up_to (f_io fl) (w_wal w) (w_root w) keep) as [root1 res1] eqn:E.
-  assert (Hroot : w_root w' = root1 /\ res = res1).
-  { destruct (walarch_abort_on_failure && existsb is_none res1); inversion H; subst; split; try reflexivity.
-    unfold set_cleaner_dir. destruct (w_cwal w); reflexivity. }
-  destruct Hroot as [-> ->]. unfold archive_logs_up_to in E.
+  intros fl w keep w' res nm H Hin.
+  destruct (cleanup_conservative_char _ _ _ _ _ H) as (root1 & E & Hr & _). rewrite Hr.
   destruct (archive_scan_results _ _ _ _ _ _ _ _ E Hin) as (id & ls & es & EL & EP & En & Hh).
   exists id, ls, es. repeat split; try assumption. subst nm. exact Hh.
 Qed.
@@ -483,8 +531,7 @@ Lemma archive_scan_notdir : forall io wal todo keep root' res,
 Proof.
   intros io wal todo. induction todo as [|[n o] r IH]; intros keep root' res H; cbn [archive_scan] in H.
   - inversion H. reflexivity.
-  - destruct (parse_log_name n) as [id|]; [|eauto].
-    destruct (walarch_eligible id keep); [|eauto].
+  - destruct (scan_id n keep) as [id|]; [|eauto].
     rewrite archive_log_notdir in H.
     destruct (archive_scan io wal r RNotDir keep) as [root2 rs] eqn:E2. inversion H. subst. eauto.
 Qed.
@@ -507,38 +554,36 @@ Lemma archive_scan_squat : forall io wal nm todo root keep root' res,
 Proof.
   intros io wal nm todo. induction todo as [|[n o] r IH]; intros root keep root' res Hs H; cbn [archive_scan] in H.
   - inversion H. subst. exact Hs.
-  - destruct (parse_log_name n) as [id|]; [|eauto].
-    destruct (walarch_eligible id keep); [|eauto].
+  - destruct (scan_id n keep) as [id|]; [|eauto].
     destruct (archive_log io wal root id) as [root1 r1] eqn:E1.
     destruct (archive_scan io wal r root1 keep) as [root2 rs] eqn:E2.
     inversion H. subst. eapply IH; [|exact E2]. eapply archive_log_squat; eassumption.
 Qed.
 
-(** For every fault pattern of the statement — the archive path is not a directory, the file
-    [archive_log] would open is missing / a directory / not UTF-8, the environment fails the write
-    (early or late), a directory occupies the archive file name — the pass reports a failure. *)
-Theorem fault_patterns_fail : forall fl w keep w' res n o id,
+(** For every fault pattern of the statement — the archive path is not a directory, the log
+    is a directory / not UTF-8, the environment fails the write (early or late), a directory occupies
+    the archive file name — the pass reports a failure. *)
+Theorem fault_patterns_fail : forall fl w keep w' res o id,
   cleanup_up_to true fl w keep = (w', res) ->
-  In (n, o) (w_wal w) -> parse_log_name n = Some id -> walarch_eligible id keep = true ->
+  In (log_name id, o) (cleaner_dir w) -> parse_log_name (log_name id) = Some id -> walarch_eligible id keep = true ->
   (w_root w = RNotDir
-   \/ lookup (log_name id) (w_wal w) = None
-   \/ lookup (log_name id) (w_wal w) = Some WDir
-   \/ (exists ls, lookup (log_name id) (w_wal w) = Some (WFile ls) /\ parse_lines ls = None)
+   \/ lookup (log_name id) (cleaner_dir w) = Some WDir
+   \/ (exists ls, lookup (log_name id) (cleaner_dir w) = Some (WFile ls) /\ parse_lines ls = None)
    \/ f_io fl id <> IoOk
-   \/ (exists ls es, lookup (log_name id) (w_wal w) = Some (WFile ls) /\ parse_lines ls = Some es /\
+   \/ (exists ls es, lookup (log_name id) (cleaner_dir w) = Some (WFile ls) /\ parse_lines ls = Some es /\
                      root_lookup (afile_name (make_archive id es)) (w_root w) = Some ADirEnt)) ->
   existsb is_none res = true.
 Proof.
-  intros fl w keep w' res n o id H Hin Hp He Hcause. unfold cleanup_up_to in H.
-  destruct (archive_logs_up_to (f_io fl) (w_wal w) (w_root w) keep) as [root1 res1] eqn:E.
-  assert (res = res1) by (destruct (walarch_abort_on_failure && existsb is_none res1); inversion H; reflexivity).
-  subst res1. unfold archive_logs_up_to in E.
+  intros fl w keep w' res o id H Hin Hp He Hcause.
+  destruct (cleanup_conservative_char _ _ _ _ _ H) as (root1 & E & _ & _).
+  assert (Hs : scan_id (log_name id) keep = Some id).
+  { unfold scan_id. rewrite Hp, He, bytes_eqb_refl, orb_true_r. reflexivity. }
   destruct (existsb is_none res) eqn:Ex; [reflexivity|exfalso].
-  destruct (archive_scan_entry _ _ _ _ _ _ _ _ _ _ E Hin Hp He Ex) as (ls & es & EL & EP & Hio & Hh).
-  destruct Hcause as [C|[C|[C|[(ls' & C1 & C2)|[C|(ls' & es' & C1 & C2 & C3)]]]]]; try congruence.
+  destruct (archive_scan_entry _ _ _ _ _ _ _ _ _ _ E Hin Hs Ex) as (ls & es & EL & EP & Hio & Hh).
+  destruct Hcause as [C|[C|[(ls' & C1 & C2)|[C|(ls' & es' & C1 & C2 & C3)]]]]; try congruence.
   - rewrite C in E. apply archive_scan_notdir in E. subst root1. unfold holds, root_lookup in Hh. cbn in Hh. discriminate.
   - rewrite C1 in EL. inversion EL. subst ls'. rewrite EP in C2. inversion C2. subst es'.
-    pose proof (archive_scan_squat _ _ _ _ _ _ _ _ C3 E) as Hs. unfold holds in Hh. congruence.
+    pose proof (archive_scan_squat _ _ _ _ _ _ _ _ C3 E) as Hsq. unfold holds in Hh. congruence.
 Qed.
 
 (** ** Deleted implies archived *)
@@ -550,57 +595,57 @@ Proof.
   eapply lookup_none_not_in; [exact Hl|]. unfold delete_pass. apply filter_In. split; [exact Hin|]. rewrite E. reflexivity.
 Qed.
 
-Lemma not_aliased : forall wal keep n o id,
-  has_aliased_name wal keep = false -> In (n, o) wal -> parse_log_name n = Some id ->
-  walarch_eligible id keep = true -> n = log_name id.
-Proof.
-  intros wal keep n o id H Hin Hp He. unfold has_aliased_name in H.
-  destruct (aliased_name keep (n, o)) eqn:E.
-  - assert (existsb (aliased_name keep) wal = true) by (apply existsb_exists; eauto). congruence.
-  - unfold aliased_name in E. cbn [fst] in E. rewrite Hp, He in E. cbn [andb] in E.
-    apply negb_false_iff in E. apply bytes_eqb_eq in E. exact E.
-Qed.
-
-Theorem deleted_implies_archived_outside_known : forall fl w keep w' res n ls,
-  NoDup (names (w_wal w)) ->
-  cleaner_dir_differs w = false -> has_aliased_name (w_wal w) keep = false ->
+(** Every log file that is gone after a conservative cleanup — whatever the directory contents, the keep
+    id, the faults and the way the cleaner was built — has the archive made of exactly its parseable
+    entries, in order, under its id. *)
+Theorem deleted_implies_archived : forall fl w keep w' res n ls,
+  NoDup (names (cleaner_dir w)) ->
   cleanup_up_to true fl w keep = (w', res) ->
-  In (n, WFile ls) (w_wal w) -> lookup n (w_wal w') = None ->
-  exists id es, parse_log_name n = Some id /\ parse_lines ls = Some es /\
+  In (n, WFile ls) (cleaner_dir w) -> lookup n (cleaner_dir w') = None ->
+  exists id es, n = log_name id /\ parse_log_name n = Some id /\ parse_lines ls = Some es /\
     root_lookup (afile_name (make_archive id es)) (w_root w') = Some (AFile (make_archive id es)).
 Proof.
-  intros fl w keep w' res n ls ND Hx Hal H Hin Hgone. unfold cleanup_up_to in H.
-  destruct (archive_logs_up_to (f_io fl) (w_wal w) (w_root w) keep) as [root1 res1] eqn:E.
-  unfold cleaner_dir_differs in Hx. destruct w as [wal cw root]. cbn [w_wal w_cwal w_root] in *.
-  destruct cw as [c|]; [discriminate|]. rewrite abort_flag in H. cbn [andb] in H.
-  destruct (existsb is_none res1) eqn:Ex; inversion H; subst w' res; cbn [w_wal w_root] in *.
-  - rewrite (in_lookup _ _ _ _ ND Hin) in Hgone. discriminate.
-  - unfold set_cleaner_dir, cleaner_dir in *. cbn [w_cwal w_wal w_root] in *.
-    pose proof (delete_pass_gone _ _ _ _ _ Hin Hgone) as Hh. unfold delete_hits in Hh. cbn [fst snd] in Hh.
-    destruct (parse_log_name n) as [id|] eqn:Hp; [|discriminate].
-    apply andb_true_iff in Hh. destruct Hh as [Hh _]. apply andb_true_iff in Hh. destruct Hh as [He _].
-    unfold archive_logs_up_to in E.
-    destruct (archive_scan_entry _ _ _ _ _ _ _ _ _ _ E Hin Hp He Ex) as (ls' & es & EL & EP & _ & Hhold).
-    pose proof (not_aliased _ _ _ _ _ Hal Hin Hp He) as En. subst n.
+  intros fl w keep w' res n ls ND H Hin Hgone.
+  destruct (cleanup_conservative_char _ _ _ _ _ H) as (root1 & E & Hr & [(_ & H1 & H2)|(Ex & Hd)]).
+  - assert (Hc : cleaner_dir w' = cleaner_dir w) by (unfold cleaner_dir; rewrite H1, H2; reflexivity).
+    rewrite Hc, (in_lookup _ _ _ _ ND Hin) in Hgone. discriminate.
+  - rewrite Hd in Hgone. pose proof (delete_pass_gone _ _ _ _ _ Hin Hgone) as Hh.
+    unfold delete_hits in Hh. cbn [fst snd] in Hh.
+    destruct (scan_id n keep) as [id|] eqn:Hs; [|discriminate].
+    destruct (archive_scan_entry _ _ _ _ _ _ _ _ _ _ E Hin Hs Ex) as (ls' & es & EL & EP & _ & Hhold).
+    destruct (scan_id_spec _ _ _ Hs) as (Hp & _ & En). subst n.
     rewrite (in_lookup _ _ _ _ ND Hin) in EL. inversion EL. subst ls'.
-    exists id, es. repeat split; try assumption.
+    exists id, es. rewrite Hr. repeat split; try assumption.
+Qed.
+
+(** A file whose name is not the canonical name of an eligible id is never removed (either mode). *)
+Theorem foreign_names_untouched : forall c fl w keep w' res n o,
+  cleanup_up_to c fl w keep = (w', res) ->
+  In (n, o) (cleaner_dir w) ->
+  (forall id, parse_log_name n = Some id -> walarch_eligible id keep = true -> n <> log_name id) ->
+  In (n, o) (cleaner_dir w').
+Proof.
+  intros c fl w keep w' res n o H Hin Hf. pose proof (scan_id_none _ _ Hf) as Hs.
+  assert (Hkeep : In (n, o) (delete_pass (f_del_ok fl) keep (cleaner_dir w))).
+  { unfold delete_pass. apply filter_In. split; [exact Hin|]. unfold delete_hits. cbn [fst]. rewrite Hs. reflexivity. }
+  destruct c.
+  - destruct (cleanup_conservative_char _ _ _ _ _ H) as (root1 & _ & _ & [(_ & H1 & H2)|(_ & Hd)]).
+    + unfold cleaner_dir in *. rewrite H1, H2. exact Hin.
+    + rewrite Hd. exact Hkeep.
+  - unfold cleanup_up_to in H. inversion H. rewrite cleaner_dir_set. exact Hkeep.
 Qed.
 
 (** ** Archives are kept by later passes unless their name is written again *)
 
 Theorem archive_kept_outside_known : forall c fl w keep w' res nm,
   cleanup_up_to c fl w keep = (w', res) ->
-  name_reused nm (w_wal w) keep = false ->
+  name_reused nm (cleaner_dir w) keep = false ->
   root_lookup nm (w_root w') = root_lookup nm (w_root w).
 Proof.
-  intros c fl w keep w' res nm H Hnr. unfold cleanup_up_to in H. destruct c.
-  - destruct (archive_logs_up_to (f_io fl) (w_wal w) (w_root w) keep) as [root1 res1] eqn:E.
-    assert (Hroot : w_root w' = root1).
-    { destruct (walarch_abort_on_failure && existsb is_none res1); inversion H; subst; try reflexivity.
-      unfold set_cleaner_dir. destruct (w_cwal w); reflexivity. }
-    rewrite Hroot. unfold archive_logs_up_to in E.
+  intros c fl w keep w' res nm H Hnr. destruct c.
+  - destruct (cleanup_conservative_char _ _ _ _ _ H) as (root1 & E & Hr & _). rewrite Hr.
     eapply archive_scan_frame; [exact Hnr| |exact E]. apply incl_refl.
-  - inversion H. unfold set_cleaner_dir. destruct (w_cwal w); reflexivity.
+  - unfold cleanup_up_to in H. inversion H. rewrite w_root_set. reflexivity.
 Qed.
 
 (** ** Histories *)
@@ -618,18 +663,25 @@ Qed.
 (** A log deleted by some cleanup of a history has its entries in the archive directory at the end of
     the history, provided no later cleanup archives a log under the same archive file name. *)
 Theorem history_deleted_stay_archived : forall root r h root1 wal1 res n ls,
-  NoDup (names (r_wal r)) -> has_aliased_name (r_wal r) (r_keep r) = false ->
+  NoDup (names (r_wal r)) ->
   run_round root r = (root1, wal1, res) ->
   In (n, WFile ls) (r_wal r) -> lookup n wal1 = None ->
-  exists id es, parse_log_name n = Some id /\ parse_lines ls = Some es /\
+  exists id es, n = log_name id /\ parse_lines ls = Some es /\
     (Forall (fun r' => name_reused (afile_name (make_archive id es)) (r_wal r') (r_keep r') = false) h ->
      root_lookup (afile_name (make_archive id es)) (run_history root1 h) = Some (AFile (make_archive id es))).
 Proof.
-  intros root r h root1 wal1 res n ls ND Hal Hr Hin Hgone. unfold run_round in Hr.
+  intros root r h root1 wal1 res n ls ND Hr Hin Hgone. unfold run_round in Hr.
   destruct (cleanup_up_to true (r_faults r) (mkWorld (r_wal r) None root) (r_keep r)) as [w' res'] eqn:E.
   inversion Hr. subst root1 wal1 res'.
-  destruct (deleted_implies_archived_outside_known (r_faults r) (mkWorld (r_wal r) None root) (r_keep r) w' res n ls
-              ND eq_refl Hal E Hin Hgone) as (id & es & Hp & EP & Hh).
+  assert (Hc : cleaner_dir w' = w_wal w').
+  { destruct (cleanup_conservative_char _ _ _ _ _ E) as (root1 & _ & _ & [(_ & H1 & H2)|(_ & Hd)]).
+    - unfold cleaner_dir. rewrite H2. reflexivity.
+    - unfold cleanup_up_to in E. rewrite archiver_dir_eq in E.
+      destruct (archive_logs_up_to (f_io (r_faults r)) (cleaner_dir (mkWorld (r_wal r) None root)) (w_root (mkWorld (r_wal r) None root)) (r_keep r)).
+      destruct (walarch_abort_on_failure && existsb is_none l); inversion E; reflexivity. }
+  rewrite <- Hc in Hgone.
+  destruct (deleted_implies_archived (r_faults r) (mkWorld (r_wal r) None root) (r_keep r) w' res n ls
+              ND E Hin Hgone) as (id & es & En & Hp & EP & Hh).
   exists id, es. repeat split; try assumption. intro HF. rewrite run_history_kept by exact HF. exact Hh.
 Qed.
 
@@ -640,14 +692,12 @@ Fixpoint eligible_entries (wal : wdir) (keep : N) : list (N * list entry) :=
   match wal with
   | [] => []
   | (n, o) :: r =>
-      match parse_log_name n, o with
+      match scan_id n keep, o with
       | Some id, WFile ls =>
-          if walarch_eligible id keep then
-            match parse_lines ls with
-            | Some es => (id, es) :: eligible_entries r keep
-            | None => eligible_entries r keep
-            end
-          else eligible_entries r keep
+          match parse_lines ls with
+          | Some es => (id, es) :: eligible_entries r keep
+          | None => eligible_entries r keep
+          end
       | _, _ => eligible_entries r keep
       end
   end.
@@ -661,16 +711,13 @@ Definition arch_of (x : N * list entry) : bytes * aobj :=
 
 Lemma eligible_entries_in : forall wal keep id es,
   In (id, es) (eligible_entries wal keep) ->
-  exists n ls, In (n, WFile ls) wal /\ parse_log_name n = Some id /\ walarch_eligible id keep = true /\
-               parse_lines ls = Some es.
+  exists n ls, In (n, WFile ls) wal /\ scan_id n keep = Some id /\ parse_lines ls = Some es.
 Proof.
   induction wal as [|[n o] r IH]; intros keep id es H; cbn [eligible_entries] in H; [destruct H|].
   assert (G : In (id, es) (eligible_entries r keep) ->
-              exists n0 ls, In (n0, WFile ls) ((n, o) :: r) /\ parse_log_name n0 = Some id /\
-                            walarch_eligible id keep = true /\ parse_lines ls = Some es).
+              exists n0 ls, In (n0, WFile ls) ((n, o) :: r) /\ scan_id n0 keep = Some id /\ parse_lines ls = Some es).
   { intro H'. destruct (IH _ _ _ H') as (n0 & ls & H1 & H2). exists n0, ls. split; [right; exact H1|exact H2]. }
-  destruct (parse_log_name n) as [id'|] eqn:Hp; [|auto]. destruct o as [ls|]; [|auto].
-  destruct (walarch_eligible id' keep) eqn:He; [|auto].
+  destruct (scan_id n keep) as [id'|] eqn:Hs; [|auto]. destruct o as [ls|]; [|auto].
   destruct (parse_lines ls) as [es'|] eqn:EP; [|auto].
   destruct H as [E|H]; [|auto]. inversion E. subst. exists n, ls. repeat split; auto. left. reflexivity.
 Qed.
@@ -683,10 +730,10 @@ Proof.
   - rewrite IH; [reflexivity|]. intro Hin. apply H. right. exact Hin.
 Qed.
 
-(** after a pass without failure over canonical names the archive directory is the old content
-    followed by one archive per eligible log, in scan order *)
+(** after a pass without failure the archive directory is the old content followed by one archive per
+    accepted log, in scan order *)
 Lemma archive_scan_success_dir : forall io wal keep,
-  NoDup (names wal) -> has_aliased_name wal keep = false ->
+  NoDup (names wal) ->
   forall todo root root' res,
   incl todo wal -> root <> RNotDir ->
   archive_scan io wal todo root keep = (root', res) -> existsb is_none res = false ->
@@ -694,21 +741,20 @@ Lemma archive_scan_success_dir : forall io wal keep,
   NoDup (map (fun x => fst (arch_of x)) (eligible_entries todo keep)) ->
   root' <> RNotDir /\ dir_of root' = dir_of root ++ map arch_of (eligible_entries todo keep).
 Proof.
-  intros io wal keep ND Hal todo. induction todo as [|[n o] r IH]; intros root root' res Hincl Hroot H Hok Hfresh Hnd;
+  intros io wal keep ND todo. induction todo as [|[n o] r IH]; intros root root' res Hincl Hroot H Hok Hfresh Hnd;
     cbn [archive_scan] in H.
   - inversion H. subst. cbn [eligible_entries map]. rewrite app_nil_r. auto.
   - assert (Hr : incl r wal) by (intros x Hx; apply Hincl; right; exact Hx).
     assert (Hin : In (n, o) wal) by (apply Hincl; left; reflexivity).
     cbn [eligible_entries] in Hfresh, Hnd |- *.
-    destruct (parse_log_name n) as [id|] eqn:Hp; [|destruct o; eauto].
-    destruct (walarch_eligible id keep) eqn:He; [|destruct o; eauto].
+    destruct (scan_id n keep) as [id|] eqn:Hs; [|eauto].
     destruct (archive_log io wal root id) as [root1 r1] eqn:E1.
     destruct (archive_scan io wal r root1 keep) as [root2 rs] eqn:E2.
     inversion H. subst root2 res. cbn [existsb] in Hok. apply orb_false_iff in Hok. destruct Hok as [Hr1 Hrs].
     destruct r1 as [nm|]; [|discriminate].
     destruct (archive_log_char _ _ _ _ _ _ E1) as [(C & _)|(ls & es & EL & EP & _ & _ & [(_ & C & _)|(Hio & _ & Eroot)])];
       try discriminate.
-    pose proof (not_aliased _ _ _ _ _ Hal Hin Hp He) as En. subst n.
+    destruct (scan_id_spec _ _ _ Hs) as (_ & _ & En). subst n.
     rewrite (in_lookup _ _ _ _ ND Hin) in EL. inversion EL. subst o.
     rewrite EP in Hfresh, Hnd |- *. cbn [map] in Hnd. apply NoDup_cons_iff in Hnd. destruct Hnd as [Hnotin Hnd'].
     assert (Hf0 : ~ In (afile_name (make_archive id es)) (names (dir_of root))).
@@ -726,21 +772,16 @@ Proof.
 Qed.
 
 Lemma eligible_ids_nodup : forall wal keep,
-  NoDup (names wal) ->
-  (forall n o id, In (n, o) wal -> parse_log_name n = Some id -> walarch_eligible id keep = true -> n = log_name id) ->
-  NoDup (map fst (eligible_entries wal keep)).
+  NoDup (names wal) -> NoDup (map fst (eligible_entries wal keep)).
 Proof.
-  induction wal as [|[n o] r IH]; intros keep ND Hcan; cbn [eligible_entries]; [constructor|].
+  induction wal as [|[n o] r IH]; intros keep ND; cbn [eligible_entries]; [constructor|].
   cbn [names map fst] in ND. inversion ND as [|? ? Hnotin ND']. subst.
-  assert (IHr : NoDup (map fst (eligible_entries r keep))).
-  { apply IH; [exact ND'|]. intros n0 o0 id0 Hin. apply (Hcan n0 o0 id0). right. exact Hin. }
-  destruct (parse_log_name n) as [id|] eqn:Hp; [|exact IHr]. destruct o as [ls|]; [|exact IHr].
-  destruct (walarch_eligible id keep) eqn:He; [|exact IHr].
+  pose proof (IH keep ND') as IHr.
+  destruct (scan_id n keep) as [id|] eqn:Hs; [|exact IHr]. destruct o as [ls|]; [|exact IHr].
   destruct (parse_lines ls) as [es|]; [|exact IHr].
   cbn [map fst]. constructor; [|exact IHr]. intro Hin. apply in_map_iff in Hin. destruct Hin as ([id' es'] & E & Hin).
-  cbn [fst] in E. subst id'. destruct (eligible_entries_in _ _ _ _ Hin) as (n' & ls' & H1 & H2 & H3 & _).
-  assert (n' = log_name id) by (apply (Hcan n' (WFile ls') id); [right; exact H1|exact H2|exact H3]).
-  assert (n = log_name id) by (apply (Hcan n (WFile ls) id); [left; reflexivity|exact Hp|exact He]).
+  cbn [fst] in E. subst id'. destruct (eligible_entries_in _ _ _ _ Hin) as (n' & ls' & H1 & H2 & _).
+  destruct (scan_id_spec _ _ _ H2) as (_ & _ & E1). destruct (scan_id_spec _ _ _ Hs) as (_ & _ & E2).
   subst n n'. apply Hnotin. apply in_map_iff. exists (log_name id, WFile ls'). auto.
 Qed.
 
@@ -778,60 +819,144 @@ Proof.
   apply insert_by_map. intros b Hb. apply H; [left; reflexivity|]. right. apply isort_by_in in Hb. exact Hb.
 Qed.
 
-(** ** Name order = id order below 10^5 *)
+(** ** The numeric sort key of an archive name is (id, start, end) *)
 
-Lemma bytes_cmp_refl : forall a, bytes_cmp a a = Eq.
-Proof. induction a as [|x a IH]; cbn [bytes_cmp]; [reflexivity|]. rewrite N.compare_refl. exact IH. Qed.
-
-Lemma bytes_cmp_app : forall p x y, bytes_cmp (p ++ x) (p ++ y) = bytes_cmp x y.
-Proof. induction p as [|c p IH]; intros x y; cbn [app bytes_cmp]; [reflexivity|]. rewrite N.compare_refl. apply IH. Qed.
-
-Lemma pad_digits_cmp : forall w a b r r',
-  a < 10 ^ N.of_nat w -> b < 10 ^ N.of_nat w -> a <> b ->
-  bytes_cmp (pad_digits w a ++ r) (pad_digits w b ++ r') = N.compare a b.
+Lemma val_ge : forall s acc, acc <= val s acc.
 Proof.
-  induction w as [|w IH]; intros a b r r' Ha Hb Hab.
-  - change (10 ^ N.of_nat 0) with 1 in Ha, Hb. lia.
-  - rewrite pow10_succ in Ha, Hb. cbn [pad_digits]. rewrite <- !app_assoc. cbn [app].
-    destruct (N.eq_dec (a / 10) (b / 10)) as [E|E].
-    + rewrite E, bytes_cmp_app. cbn [bytes_cmp].
-      assert (a mod 10 < 10 /\ b mod 10 < 10) by (split; apply N.mod_lt; lia).
-      destruct (N.compare_spec (48 + a mod 10) (48 + b mod 10)); destruct (N.compare_spec a b); try lia; reflexivity.
-    + rewrite IH by lia.
-      destruct (N.compare_spec (a / 10) (b / 10)); destruct (N.compare_spec a b); try lia; reflexivity.
+  induction s as [|c s IH]; intro acc; cbn [val]; [lia|].
+  specialize (IH (acc * 10 + digit_val c)). lia.
 Qed.
 
-Definition narrow (id : N) : Prop := id < 10 ^ N.of_nat walarch_arch_pad_width.
-
-Lemma archive_name_cmp : forall id s e id' s' e',
-  narrow id -> narrow id' -> id <> id' ->
-  bytes_cmp (archive_name id s e) (archive_name id' s' e') = N.compare id id'.
+Lemma digits_val_ok : forall s acc,
+  forallb is_digit s = true -> val s acc <= u64_max -> digits_val s acc = Some (val s acc).
 Proof.
-  intros id s e id' s' e' H1 H2 Hne. unfold narrow in *. unfold archive_name, pad_dec.
-  destruct (N.ltb_spec id (10 ^ N.of_nat walarch_arch_pad_width)); [|lia].
-  destruct (N.ltb_spec id' (10 ^ N.of_nat walarch_arch_pad_width)); [|lia].
-  rewrite bytes_cmp_app. apply pad_digits_cmp; assumption.
+  induction s as [|c s IH]; intros acc Hd Hv; cbn [digits_val val] in *; [reflexivity|].
+  apply andb_true_iff in Hd. destruct Hd as [H1 H2]. rewrite H1.
+  pose proof (val_ge s (acc * 10 + digit_val c)) as Hge.
+  destruct (N.leb_spec (acc * 10 + digit_val c) u64_max) as [_|Hgt]; [|lia]. apply IH; assumption.
 Qed.
 
-Lemma name_leb_arch : forall x y,
-  narrow (fst x) -> narrow (fst y) -> (fst x = fst y -> x = y) ->
-  name_leb (arch_of x) (arch_of y) = id_leb x y.
+Lemma digits_val_le : forall s acc n, digits_val s acc = Some n -> acc <= u64_max -> n <= u64_max.
 Proof.
-  intros [id es] [id' es'] H1 H2 Hinj. cbn [fst] in *. unfold name_leb, id_leb, arch_of. cbn [fst].
-  destruct (N.eq_dec id id') as [E|E].
-  - specialize (Hinj E). inversion Hinj. subst. rewrite bytes_cmp_refl. symmetry. apply N.leb_le. lia.
-  - unfold afile_name, make_archive. cbn [a_log_id a_start a_end].
-    rewrite archive_name_cmp by assumption.
-    destruct (N.compare_spec id id'); destruct (N.leb_spec id id'); try lia; reflexivity.
+  induction s as [|c s IH]; intros acc n H Ha; cbn [digits_val] in H.
+  - inversion H. subst. exact Ha.
+  - destruct (is_digit c); [|discriminate].
+    destruct (N.leb_spec (acc * 10 + digit_val c) u64_max) as [Hle|_]; [|discriminate]. eapply IH; eassumption.
 Qed.
 
-(** ** Extension *)
+Lemma parse_u64_le : forall s n, parse_u64 s = Some n -> n <= u64_max.
+Proof.
+  intros s n H. unfold parse_u64 in H.
+  destruct (match s with [] => s | c :: r => if c =? 43 then r else s end) as [|c r]; [discriminate|].
+  eapply digits_val_le; [exact H|]. unfold u64_max. lia.
+Qed.
+
+Lemma parse_u64_digits : forall s,
+  forallb is_digit s = true -> s <> [] -> val s 0 <= u64_max -> parse_u64 s = Some (val s 0).
+Proof.
+  intros [|c r] Hd Hne Hv; [congruence|]. unfold parse_u64.
+  assert (Hc : (c =? 43) = false).
+  { cbn [forallb] in Hd. apply andb_true_iff in Hd. destruct Hd as [H1 _]. unfold is_digit in H1. lia. }
+  rewrite Hc. apply digits_val_ok; assumption.
+Qed.
+
+Lemma parse_log_name_le : forall n id, parse_log_name n = Some id -> id <= u64_max.
+Proof.
+  intros n id H. unfold parse_log_name in H.
+  destruct (strip_prefix walarch_log_prefix n); [|discriminate].
+  destruct (strip_suffix walarch_log_suffix b); [|discriminate]. eapply parse_u64_le; exact H.
+Qed.
+
+Lemma split_on_digits_end : forall d, forallb is_digit d = true -> split_on walarch_key_sep d = [d].
+Proof.
+  induction d as [|x d IH]; intro H; cbn [split_on]; [reflexivity|].
+  cbn [forallb] in H. apply andb_true_iff in H. destruct H as [H1 H2].
+  assert (E : (x =? walarch_key_sep) = false) by (unfold walarch_key_sep, is_digit in *; lia).
+  rewrite E, (IH H2). reflexivity.
+Qed.
+
+Lemma split_on_digits_app : forall d r,
+  forallb is_digit d = true -> split_on walarch_key_sep (d ++ walarch_key_sep :: r) = d :: split_on walarch_key_sep r.
+Proof.
+  induction d as [|x d IH]; intros r H; cbn [app split_on].
+  - rewrite N.eqb_refl. reflexivity.
+  - cbn [forallb] in H. apply andb_true_iff in H. destruct H as [H1 H2].
+    assert (E : (x =? walarch_key_sep) = false) by (unfold walarch_key_sep, is_digit in *; lia).
+    rewrite E, (IH r H2). reflexivity.
+Qed.
 
 Lemma strip_prefix_app : forall p y, strip_prefix p (p ++ y) = Some y.
 Proof. induction p as [|c p IH]; intro y; cbn [app strip_prefix]; [reflexivity|]. rewrite N.eqb_refl. apply IH. Qed.
 
 Lemma strip_suffix_app : forall q x, strip_suffix q (x ++ q) = Some x.
 Proof. intros q x. unfold strip_suffix. rewrite rev_app_distr, strip_prefix_app, rev_involutive. reflexivity. Qed.
+
+Lemma pad_dec_nonempty : forall n, pad_dec walarch_arch_pad_width n <> [].
+Proof.
+  intros n. unfold pad_dec. destruct (n <? 10 ^ N.of_nat walarch_arch_pad_width).
+  - intro E. apply (f_equal (@length N)) in E. rewrite pad_digits_length in E. discriminate E.
+  - apply dec_of_N_spec.
+Qed.
+
+Lemma archive_sort_key_name : forall id s e,
+  id <= u64_max -> s <= u64_max -> e <= u64_max ->
+  archive_sort_key (archive_name id s e) = (id, s, e).
+Proof.
+  intros id s e Hi Hs He. unfold archive_sort_key, archive_name.
+  change walarch_arch_prefix with walarch_key_prefix. rewrite strip_prefix_app.
+  change walarch_arch_suffix with walarch_key_suffix. rewrite !app_assoc, strip_suffix_app, <- !app_assoc.
+  change walarch_arch_sep1 with [walarch_key_sep]. change walarch_arch_sep2 with [walarch_key_sep]. cbn [app].
+  destruct (pad_dec_spec walarch_arch_pad_width id) as (D1 & V1).
+  destruct (dec_of_N_spec s) as (D2 & V2 & N2). destruct (dec_of_N_spec e) as (D3 & V3 & N3).
+  rewrite (split_on_digits_app _ _ D1), (split_on_digits_app _ _ D2), (split_on_digits_end _ D3).
+  rewrite (parse_u64_digits _ D1 (pad_dec_nonempty id)) by (rewrite V1; exact Hi).
+  rewrite (parse_u64_digits _ D2 N2) by (rewrite V2; exact Hs).
+  rewrite (parse_u64_digits _ D3 N3) by (rewrite V3; exact He).
+  rewrite V1, V2, V3. reflexivity.
+Qed.
+
+Lemma key_cmp_refl : forall k, key_cmp k k = Eq.
+Proof. intros [[a b] c]. unfold key_cmp. rewrite !N.compare_refl. reflexivity. Qed.
+
+Lemma bytes_cmp_refl : forall a, bytes_cmp a a = Eq.
+Proof. induction a as [|x a IH]; cbn [bytes_cmp]; [reflexivity|]. rewrite N.compare_refl. exact IH. Qed.
+
+(** the header of an archive stays within u64 when ids and timestamps are *)
+Definition bounded (x : N * list entry) : Prop :=
+  fst x <= u64_max /\ Forall (fun e => e_ts e <= u64_max) (snd x).
+
+Lemma ts_min_le : forall es a, fold_left (fun a e => N.min a (e_ts e)) es a <= a.
+Proof. induction es as [|e es IH]; intro a; cbn [fold_left]; [lia|]. specialize (IH (N.min a (e_ts e))). lia. Qed.
+
+Lemma ts_max_le : forall es a,
+  a <= u64_max -> Forall (fun e => e_ts e <= u64_max) es -> fold_left (fun a e => N.max a (e_ts e)) es a <= u64_max.
+Proof.
+  induction es as [|e es IH]; intros a Ha HF; cbn [fold_left]; [exact Ha|].
+  inversion HF as [|? ? H1 H2]. subst. apply IH; [lia|exact H2].
+Qed.
+
+Lemma arch_key : forall x, bounded x -> archive_sort_key (fst (arch_of x)) = (fst x, a_start (make_archive (fst x) (snd x)), a_end (make_archive (fst x) (snd x))).
+Proof.
+  intros [id es] [Hi Hts]. cbn [fst snd] in *. unfold arch_of. cbn [fst]. unfold afile_name.
+  apply archive_sort_key_name; [exact Hi| |].
+  - unfold make_archive. cbn [a_start]. destruct (N.of_nat (length es) =? 0); [unfold u64_max; lia|].
+    unfold ts_min. apply ts_min_le.
+  - unfold make_archive. cbn [a_end]. unfold ts_max. apply ts_max_le; [unfold u64_max; lia|exact Hts].
+Qed.
+
+(** name order of archives = id order of their logs, for ids of any width *)
+Lemma name_leb_arch : forall x y,
+  bounded x -> bounded y -> (fst x = fst y -> x = y) ->
+  name_leb (arch_of x) (arch_of y) = id_leb x y.
+Proof.
+  intros x y Bx By Hinj. unfold name_leb. rewrite numeric_sort_flag.
+  destruct (N.eq_dec (fst x) (fst y)) as [E|E].
+  - specialize (Hinj E). subst y. rewrite key_cmp_refl, bytes_cmp_refl. unfold id_leb. symmetry. apply N.leb_le. lia.
+  - rewrite (arch_key x Bx), (arch_key y By). unfold key_cmp, id_leb.
+    destruct (N.compare_spec (fst x) (fst y)); destruct (N.leb_spec (fst x) (fst y)); try lia; reflexivity.
+Qed.
+
+(** ** Extension *)
 
 Lemma archive_name_has_ext : forall id s e, has_ext (archive_name id s e) = true.
 Proof.
@@ -846,15 +971,14 @@ Qed.
 Definition wal_wf (wal : wdir) : Prop :=
   Forall (fun p => match snd p with WFile ls => Forall line_wf ls | WDir => True end) wal.
 
-Lemma not_wide : forall wal keep n o id,
-  has_wide_id wal keep = false -> In (n, o) wal -> parse_log_name n = Some id ->
-  walarch_eligible id keep = true -> narrow id.
+Lemma parse_lines_ts : forall ls es,
+  Forall line_wf ls -> parse_lines ls = Some es -> Forall (fun e => e_ts e <= u64_max) es.
 Proof.
-  intros wal keep n o id H Hin Hp He. unfold has_wide_id in H.
-  destruct (wide_id keep (n, o)) eqn:E.
-  - assert (existsb (wide_id keep) wal = true) by (apply existsb_exists; eauto). congruence.
-  - unfold wide_id in E. cbn [fst] in E. rewrite Hp, He in E. cbn [andb] in E.
-    apply negb_false_iff in E. unfold narrow. lia.
+  induction ls as [|l ls IH]; intros es Hwf H; cbn [parse_lines] in H.
+  - inversion H. constructor.
+  - inversion Hwf as [|? ? Hl Hls]. subst. destruct l as [| | |j]; try discriminate; auto.
+    destruct (parse_lines ls) as [es'|] eqn:E; [|discriminate]. inversion H. subst.
+    constructor; [|auto]. destruct Hl as [Hts _]. exact Hts.
 Qed.
 
 Lemma filter_ext_old : forall (d : adir),
@@ -870,23 +994,20 @@ Proof.
   unfold arch_of at 1. cbn [fst]. unfold afile_name. rewrite archive_name_has_ext. rewrite IH. reflexivity.
 Qed.
 
-Theorem recover_roundtrip_outside_known : forall fl wal keep root w' res,
-  NoDup (names wal) -> wal_wf wal ->
-  has_aliased_name wal keep = false -> has_wide_id wal keep = false ->
-  root <> RNotDir -> (forall n o, In (n, o) (dir_of root) -> has_ext n = false) ->
-  cleanup_up_to true fl (mkWorld wal None root) keep = (w', res) ->
+(** Recovery after a conservative cleanup that reported no failure returns exactly the entries of the
+    archived logs, line order within a log, logs in id order — for ids of any width, foreign file names in
+    the WAL directory and either way of building the cleaner. *)
+Theorem recover_roundtrip : forall fl w keep w' res,
+  NoDup (names (cleaner_dir w)) -> wal_wf (cleaner_dir w) ->
+  w_root w <> RNotDir -> (forall n o, In (n, o) (dir_of (w_root w)) -> has_ext n = false) ->
+  cleanup_up_to true fl w keep = (w', res) ->
   existsb is_none res = false ->
-  recover_all (w_root w') = Some (expected_recovery wal keep).
+  recover_all (w_root w') = Some (expected_recovery (cleaner_dir w) keep).
 Proof.
-  intros fl wal keep root w' res ND Hwf Hal Hwide Hroot Hold H Hok. unfold cleanup_up_to in H.
-  cbn [w_wal w_root w_cwal] in H.
-  destruct (archive_logs_up_to (f_io fl) wal root keep) as [root1 res1] eqn:E.
-  assert (Hr : w_root w' = root1 /\ res = res1).
-  { destruct (walarch_abort_on_failure && existsb is_none res1); inversion H; subst; split; reflexivity. }
-  destruct Hr as [Hr ->]. rewrite Hr. clear H Hr. unfold archive_logs_up_to in E.
-  assert (Hcan : forall n o id, In (n, o) wal -> parse_log_name n = Some id -> walarch_eligible id keep = true ->
-                                n = log_name id) by (intros; eapply not_aliased; eassumption).
-  pose proof (eligible_ids_nodup wal keep ND Hcan) as Hids.
+  intros fl w keep w' res ND Hwf Hroot Hold H Hok.
+  destruct (cleanup_conservative_char _ _ _ _ _ H) as (root1 & E & Hr & _). rewrite Hr. clear H Hr.
+  set (wal := cleaner_dir w) in *. set (root := w_root w) in *.
+  pose proof (eligible_ids_nodup wal keep ND) as Hids.
   assert (Hinj : forall x y, In x (eligible_entries wal keep) -> In y (eligible_entries wal keep) -> fst x = fst y -> x = y).
   { clear - Hids. induction (eligible_entries wal keep) as [|z l IH]; intros x y Hx Hy Exy; [destruct Hx|].
     cbn [map] in Hids. inversion Hids as [|? ? Hn Hd]. subst.
@@ -902,22 +1023,23 @@ Proof.
   { intros x Hx Hin. unfold names in Hin. apply in_map_iff in Hin. destruct Hin as ([n o] & En & Hin). cbn [fst] in En.
     pose proof (Hold n o Hin) as Hne. rewrite En in Hne. unfold arch_of in Hne. cbn [fst] in Hne.
     unfold afile_name in Hne. rewrite archive_name_has_ext in Hne. discriminate. }
-  destruct (archive_scan_success_dir _ wal keep ND Hal wal root root1 res1 (incl_refl _) Hroot E Hok Hfresh Hnames) as (G1 & G2).
+  destruct (archive_scan_success_dir _ wal keep ND wal root root1 res (incl_refl _) Hroot E Hok Hfresh Hnames) as (G1 & G2).
   unfold recover_all, list_archives.
   destruct root1 as [| |d1]; [cbn [dir_of] in G2| congruence |].
-  - (* the directory was missing and nothing was archived *)
-    symmetry in G2. apply app_eq_nil in G2. destruct G2 as [_ G2]. unfold expected_recovery.
+  - symmetry in G2. apply app_eq_nil in G2. destruct G2 as [_ G2]. unfold expected_recovery.
     destruct (eligible_entries wal keep); [reflexivity|discriminate].
   - cbn [dir_of] in G2. subst d1. rewrite filter_app, filter_ext_old by exact Hold. cbn [app].
     rewrite filter_ext_new.
-    assert (Hnarrow : forall x, In x (eligible_entries wal keep) -> narrow (fst x)).
-    { intros [id es] Hx. destruct (eligible_entries_in _ _ _ _ Hx) as (n & ls & H1 & H2 & H3 & _).
-      cbn [fst]. eapply not_wide; eassumption. }
+    assert (Hb : forall x, In x (eligible_entries wal keep) -> bounded x).
+    { intros [id es] Hx. destruct (eligible_entries_in _ _ _ _ Hx) as (n & ls & H1 & H2 & H3).
+      destruct (scan_id_spec _ _ _ H2) as (Hp & _ & _). split; cbn [fst snd].
+      - eapply parse_log_name_le; exact Hp.
+      - eapply parse_lines_ts; [|exact H3]. unfold wal_wf in Hwf. rewrite Forall_forall in Hwf. apply (Hwf _ H1). }
     rewrite (isort_by_map _ _ arch_of id_leb name_leb).
-    2:{ intros a b Ha Hb. apply name_leb_arch; auto. }
+    2:{ intros a b Ha Hb'. apply name_leb_arch; auto. }
     f_equal. unfold expected_recovery.
     assert (Hloss : forall x, In x (isort_by id_leb (eligible_entries wal keep)) -> map mp_entry (snd x) = snd x).
-    { intros [id es] Hx. apply isort_by_in in Hx. destruct (eligible_entries_in _ _ _ _ Hx) as (n & ls & H1 & _ & _ & H4).
+    { intros [id es] Hx. apply isort_by_in in Hx. destruct (eligible_entries_in _ _ _ _ Hx) as (n & ls & H1 & _ & H4).
       cbn [snd]. eapply parse_lines_lossless; [|exact H4].
       unfold wal_wf in Hwf. rewrite Forall_forall in Hwf. apply (Hwf _ H1). }
     induction (isort_by id_leb (eligible_entries wal keep)) as [|x l IH]; cbn [map flat_map]; [reflexivity|].
@@ -926,75 +1048,14 @@ Proof.
     rewrite Hloss by (left; reflexivity). reflexivity.
 Qed.
 
-(** * Witnesses: where the property fails on the faithful model, and satisfiability of the hypotheses *)
+(** * Witnesses: where the property still fails on the faithful model, and satisfiability of the hypotheses *)
 
 Definition wit_line (ts id : N) : line := LEntry (mkJEntry ts [99] [116] [] id).
 Definition wit_entry (ts id : N) : entry := entry_of_json (mkJEntry ts [99] [116] [] id).
 Definition no_faults : faults := mkFaults (fun _ => IoOk) (fun _ => true).
-(** "wal-1.log": scans to id 1 but is not the file [archive_log 1] opens ("wal-00001.log") *)
-Definition alias_1 : bytes := walarch_log_prefix ++ [49] ++ walarch_log_suffix.
-
-Definition wit_alias_world : world :=
-  mkWorld [(alias_1, WFile [wit_line 5 2]); (log_name 1, WFile [wit_line 5 1])] None RMissing.
-Definition wit_mismatch_world : world :=
-  mkWorld [] (Some [(log_name 0, WFile [wit_line 5 1])]) RMissing.
 
 Ltac nodup2 := constructor; [intros [H|[]]; vm_compute in H; discriminate H|constructor; [intros []|constructor]].
 Ltac nodup1 := constructor; [intros []|constructor].
-
-Theorem deleted_implies_archived_refuted :
-  (exists fl w keep n ls es,
-     NoDup (names (w_wal w)) /\ cleaner_dir_differs w = false /\ wal_wf (w_wal w) /\
-     In (n, WFile ls) (w_wal w) /\ parse_lines ls = Some es /\ es <> [] /\
-     lookup n (w_wal (fst (cleanup_up_to true fl w keep))) = None /\
-     forall nm f, root_lookup nm (w_root (fst (cleanup_up_to true fl w keep))) = Some (AFile f) -> a_entries f <> es)
-  /\
-  (exists fl w keep n ls es,
-     NoDup (names (cleaner_dir w)) /\ has_aliased_name (w_wal w) keep = false /\
-     has_aliased_name (cleaner_dir w) keep = false /\ wal_wf (cleaner_dir w) /\
-     In (n, WFile ls) (cleaner_dir w) /\ parse_lines ls = Some es /\ es <> [] /\
-     lookup n (cleaner_dir (fst (cleanup_up_to true fl w keep))) = None /\
-     forall nm f, root_lookup nm (w_root (fst (cleanup_up_to true fl w keep))) = Some (AFile f) -> a_entries f <> es).
-Proof.
-  split.
-  - exists no_faults, wit_alias_world, 2, alias_1, [wit_line 5 2], [wit_entry 5 2].
-    split; [cbn [wit_alias_world w_wal names map fst]; nodup2|].
-    split; [reflexivity|].
-    split; [repeat constructor|].
-    split; [left; reflexivity|].
-    split; [reflexivity|]. split; [discriminate|].
-    split; [vm_compute; reflexivity|].
-    intros nm f H. remember (cleanup_up_to true no_faults wit_alias_world 2) as r eqn:Er. vm_compute in Er. subst r.
-    unfold root_lookup in H. cbn [fst w_root dir_of lookup] in H.
-    destruct (bytes_eqb nm _); [|discriminate]. inversion H. subst f. vm_compute. discriminate.
-  - exists no_faults, wit_mismatch_world, 1, (log_name 0), [wit_line 5 1], [wit_entry 5 1].
-    split; [cbn [wit_mismatch_world cleaner_dir w_cwal names map fst]; nodup1|].
-    split; [reflexivity|]. split; [vm_compute; reflexivity|].
-    split; [repeat constructor|].
-    split; [left; reflexivity|].
-    split; [reflexivity|]. split; [discriminate|].
-    split; [vm_compute; reflexivity|].
-    intros nm f H. remember (cleanup_up_to true no_faults wit_mismatch_world 1) as r eqn:Er. vm_compute in Er. subst r.
-    unfold root_lookup in H. cbn [fst w_root dir_of lookup] in H. discriminate.
-Qed.
-
-(** ids 99999 and 100000: the six-digit name sorts before the five-digit one *)
-Definition wit_wide_wal : wdir :=
-  [(log_name 99999, WFile [wit_line 5 1]); (log_name 100000, WFile [wit_line 6 2])].
-
-Theorem recover_roundtrip_refuted :
-  exists fl wal keep root,
-    NoDup (names wal) /\ wal_wf wal /\ has_aliased_name wal keep = false /\ root = RMissing /\
-    existsb is_none (snd (cleanup_up_to true fl (mkWorld wal None root) keep)) = false /\
-    recover_all (w_root (fst (cleanup_up_to true fl (mkWorld wal None root) keep))) <> Some (expected_recovery wal keep).
-Proof.
-  exists no_faults, wit_wide_wal, 100001, RMissing.
-  split; [cbn [wit_wide_wal names map fst]; nodup2|].
-  split; [repeat constructor|].
-  split; [vm_compute; reflexivity|]. split; [reflexivity|].
-  split; [vm_compute; reflexivity|].
-  vm_compute. discriminate.
-Qed.
 
 (** two lifetimes: the WAL id restarts at 0, the second log 0 covers the same second as the first *)
 Definition wit_round1 : round := mkRound [(log_name 0, WFile [wit_line 5 1])] 1 no_faults.
@@ -1002,16 +1063,18 @@ Definition wit_round2 : round := mkRound [(log_name 0, WFile [wit_line 5 2])] 1 
 
 Theorem archive_names_unique_refuted :
   exists root r1 r2 n ls es,
-    NoDup (names (r_wal r1)) /\ has_aliased_name (r_wal r1) (r_keep r1) = false /\ wal_wf (r_wal r1) /\
-    NoDup (names (r_wal r2)) /\ has_aliased_name (r_wal r2) (r_keep r2) = false /\ wal_wf (r_wal r2) /\
+    NoDup (names (r_wal r1)) /\ wal_wf (r_wal r1) /\
+    NoDup (names (r_wal r2)) /\ wal_wf (r_wal r2) /\
     In (n, WFile ls) (r_wal r1) /\ parse_lines ls = Some es /\ es <> [] /\
     lookup n (snd (fst (run_round root r1))) = None /\
     existsb is_none (snd (run_round (fst (fst (run_round root r1))) r2)) = false /\
     forall nm f, root_lookup nm (run_history root [r1; r2]) = Some (AFile f) -> a_entries f <> es.
 Proof.
   exists RMissing, wit_round1, wit_round2, (log_name 0), [wit_line 5 1], [wit_entry 5 1].
-  split; [cbn [wit_round1 r_wal names map fst]; nodup1|]. split; [vm_compute; reflexivity|]. split; [repeat constructor|].
-  split; [cbn [wit_round2 r_wal names map fst]; nodup1|]. split; [vm_compute; reflexivity|]. split; [repeat constructor|].
+  split; [cbn [wit_round1 r_wal names map fst]; nodup1|].
+  split; [repeat constructor; vm_compute; discriminate|].
+  split; [cbn [wit_round2 r_wal names map fst]; nodup1|].
+  split; [repeat constructor; vm_compute; discriminate|].
   split; [left; reflexivity|]. split; [reflexivity|]. split; [discriminate|].
   split; [vm_compute; reflexivity|]. split; [vm_compute; reflexivity|].
   intros nm f H. remember (run_history RMissing [wit_round1; wit_round2]) as r eqn:Er. vm_compute in Er. subst r.
@@ -1037,15 +1100,44 @@ Proof. vm_compute. repeat split; auto. Qed.
 
 Example ex_deleted_archived_recovered :
   let r := cleanup_up_to true no_faults (mkWorld ex_wal None RMissing) 2 in
-  NoDup (names ex_wal) /\ wal_wf ex_wal /\ has_aliased_name ex_wal 2 = false /\ has_wide_id ex_wal 2 = false /\
+  NoDup (names ex_wal) /\ wal_wf ex_wal /\
   existsb is_none (snd r) = false /\
   names (w_wal (fst r)) = [log_name 2] /\
   recover_all (w_root (fst r)) = Some [wit_entry 5 1; wit_entry 6 2; wit_entry 7 3].
 Proof.
   cbv zeta. split.
   { cbn [ex_wal names map fst]. constructor; [intros [H|[H|[]]]; vm_compute in H; discriminate H|nodup2]. }
-  split; [repeat constructor|]. vm_compute. repeat split; reflexivity.
+  split; [repeat constructor; vm_compute; discriminate|]. vm_compute. repeat split; reflexivity.
 Qed.
+
+(** the former counterexamples, now instances of the positive theorems:
+    "wal-1.log" next to "wal-00001.log" — only the canonical file is archived and deleted, the foreign
+    one is left alone (fix 1c3fa90) *)
+Definition alias_1 : bytes := walarch_log_prefix ++ [49] ++ walarch_log_suffix.
+Example ex_alias_left_alone :
+  let w := mkWorld [(alias_1, WFile [wit_line 5 2]); (log_name 1, WFile [wit_line 5 1])] None RMissing in
+  let r := cleanup_up_to true no_faults w 2 in
+  parse_log_name alias_1 = Some 1 /\ existsb is_none (snd r) = false /\
+  w_wal (fst r) = [(alias_1, WFile [wit_line 5 2])] /\
+  recover_all (w_root (fst r)) = Some [wit_entry 5 1].
+Proof. vm_compute. repeat split; reflexivity. Qed.
+
+(** a cleaner built on its own directory archives that directory (fix db8e58e) *)
+Example ex_own_dir_archived :
+  let w := mkWorld [] (Some [(log_name 0, WFile [wit_line 5 1])]) RMissing in
+  let r := cleanup_up_to true no_faults w 1 in
+  cleaner_dir (fst r) = [] /\ recover_all (w_root (fst r)) = Some [wit_entry 5 1].
+Proof. vm_compute. split; reflexivity. Qed.
+
+(** ids 99999 and 100000 come back in id order (fix 06752f6) although "wal-100000-…" < "wal-99999-…" as strings *)
+Example ex_wide_ids_in_order :
+  let wal := [(log_name 100000, WFile [wit_line 6 2]); (log_name 99999, WFile [wit_line 5 1])] in
+  let r := cleanup_up_to true no_faults (mkWorld wal None RMissing) 100001 in
+  bytes_cmp (archive_name 100000 6 6) (archive_name 99999 5 5) = Lt /\
+  existsb is_none (snd r) = false /\ w_wal (fst r) = [] /\
+  recover_all (w_root (fst r)) = Some [wit_entry 5 1; wit_entry 6 2] /\
+  expected_recovery wal 100001 = [wit_entry 5 1; wit_entry 6 2].
+Proof. vm_compute. repeat split; reflexivity. Qed.
 
 Example ex_name_not_reused :
   name_reused (archive_name 0 5 5) (r_wal wit_round2) (r_keep wit_round2) = true /\
@@ -1069,13 +1161,16 @@ Example ex_lossless :
   Forall line_wf [wit_line 5 1; LJunk; LEntry (mkJEntry 6 [99] [116] [([98], JInt 18446744073709551615); ([97], JFloat 4609434218613702656); ([98], JNested [91; 93])] 2)]
   /\ parse_lines [wit_line 5 1; LJunk; LEntry (mkJEntry 6 [99] [116] [([98], JInt 18446744073709551615); ([97], JFloat 4609434218613702656); ([98], JNested [91; 93])] 2)]
      = Some [wit_entry 5 1; mkEntry 6 [99] [116] [([97], SFloat 4609434218613702656); ([98], SUtf8 [91; 93])] 2].
-Proof. split; [repeat constructor|vm_compute; reflexivity]. Qed.
+Proof.
+  split; [|vm_compute; reflexivity].
+  repeat constructor; try (vm_compute; discriminate); try reflexivity.
+Qed.
 
 (** the history theorem's hypotheses hold on a two-cleanup history with a non-trivial outcome *)
 Example ex_history_kept :
   let r1 := mkRound ex_wal 2 no_faults in
   let r2 := mkRound [(log_name 5, WFile [wit_line 9 9]); (log_name 2, WFile [wit_line 9 4])] 6 no_faults in
-  NoDup (names (r_wal r1)) /\ has_aliased_name (r_wal r1) (r_keep r1) = false /\
+  NoDup (names (r_wal r1)) /\
   lookup (log_name 0) (snd (fst (run_round RMissing r1))) = None /\
   Forall (fun r' => name_reused (archive_name 0 5 6) (r_wal r') (r_keep r') = false) [r2] /\
   root_lookup (archive_name 0 5 6) (run_history RMissing [r1; r2])
@@ -1085,7 +1180,7 @@ Example ex_history_kept :
 Proof.
   cbv zeta. split.
   { cbn [r_wal ex_wal names map fst]. constructor; [intros [H|[H|[]]]; vm_compute in H; discriminate H|nodup2]. }
-  split; [vm_compute; reflexivity|]. split; [vm_compute; reflexivity|].
+  split; [vm_compute; reflexivity|].
   split; [constructor; [vm_compute; reflexivity|constructor]|].
   split; vm_compute; reflexivity.
 Qed.
